@@ -7,7 +7,7 @@ NEEDS = ('rqmc', 'rq')
 def run(tier, seed):
     res = common.Result('model_checking')
     args = ['4', '2', '4', '2'] if tier == 'quick' else ['5', '3', '5', '2']
-    doc = common.run_engine([common.RQMC, 'c20'] + args)
+    doc = common.run_engine_parts([common.RQMC, 'c20'] + args)
     common.merge_engine(res, doc)
     cov = res.coverage
     cov['bounds'] = {'c02_space': doc['c02_space'], 'c03_space': doc['c03_space'], 'fuzz_limits': doc['fuzz_limits']}
